@@ -188,6 +188,14 @@ m('c18-input-keys-missing', 'C18', 'task.py', "                self._run_info['i
 m('c18-params-from-default', 'C18', 'task.py', "            'parameters': {p.name: p.value_repr() for p in self.parameters.values()},", "            'parameters': {p.name: repr(p.default) for p in self.parameters.values()},")
 m('c18-run-info-skipped-on-rerun', 'C18', 'task.py', "        if self._data and self._data.is_logging:\n            self._data.save_run_info(self._run_info)", "        if self._data and self._data.is_logging and not self._data.run_info_path.exists():\n            self._data.save_run_info(self._run_info)")
 
+# ---- C13 -----------------------------------------------------------------------------------------------
+m('c13-registry-by-name', 'C13', 'chain.py', "            key = task.slugname, task.name_for_persistence\n", "            key = task.slugname, ''\n")
+m('c13-registry-not-passed', 'C13', 'chain.py', "            self.chains[config.name] = Chain(config, self._tasks, parameter_mode=self.parameter_mode)", "            self.chains[config.name] = Chain(config, None, parameter_mode=self.parameter_mode)")
+m('c13-force-first-chain-only', 'C13', 'chain.py', "        for chain in self.chains.values():\n            chain.force(tasks, **kwargs)", "        for chain in list(self.chains.values())[:1]:\n            chain.force(tasks, **kwargs)")
+m('c13-shared-ns-from-config', 'C13', 'chain.py', "            namespace = '::'.join(task_name.split('::')[:-1])\n", "            namespace = task.get_config().namespace\n")
+m('c13-registry-key-no-slug', 'C13', 'chain.py', "            key = task.slugname, task.name_for_persistence\n", "            key = task.name_for_persistence\n")
+m('c13-force-kwargs-dropped', 'C13', 'chain.py', "        for chain in self.chains.values():\n            chain.force(tasks, **kwargs)", "        for chain in self.chains.values():\n            chain.force(tasks)")
+
 
 def make_scratch():
     d = Path(tempfile.mkdtemp(prefix='tcmut-'))
